@@ -888,6 +888,8 @@ fn gen_logs(rec: &mut Rec, rng: &mut Rng, cases: u64, thorough: bool) {
                 6 => cap * 2 + rng.range(0, 2),
                 7 => rng.range(cap, 3 * cap),
                 8 if thorough || ci % 20 == 0 => 1 << 20,
+                // around the widths a length or offset could be narrowed to
+                8 | 10 if ci % 5 == 1 => *rng.pick(&[255u64, 256, 257, 65535, 65536, 65537, 65536 + 1001, 131072 + 7]),
                 9 => rng.range(400, 600),
                 _ => rng.range(0, 300),
             };
@@ -1247,16 +1249,18 @@ fn gen_intern(rec: &mut Rec, rng: &mut Rng, cases: u64) {
                         let len = match rng.below(6) {
                             0 => 0,
                             1 if ci % 10 == 0 => 1 << 20,
+                            // around the widths a span length could be narrowed to (u8, u16) and beyond
+                            1 | 3 if ci % 4 == 1 => *rng.pick(&[255usize, 256, 257, 65535, 65536, 65537, 65539, 70000, 131075]),
                             2 => 4096,
                             _ => rng.range(0, 300) as usize,
                         };
                         (0..len).map(|i| b'a' + (i % 26) as u8).collect()
                     };
-                    let a = if k.len() > 100_000 || rng.chance(1, 2) {
+                    let a = if k.len() > 200_000 || rng.chance(1, 2) {
                         let a = rec.op(&format!("internreq {}", k.len()));
                         // another intern may be requested before the copy only on another thread;
                         // on one thread the glue copies immediately
-                        if k.len() > 100_000 {
+                        if k.len() > 200_000 {
                             // only a prefix is copied (the rest stays zero): keep the op line small
                             rec.op(&format!("interncopy {}", hex0(&k[..64])));
                             ids.push((usize::MAX, Vec::new()));
@@ -1269,7 +1273,7 @@ fn gen_intern(rec: &mut Rec, rng: &mut Rng, cases: u64) {
                         rec.op(&format!("intern {}", hex0(&k)))
                     };
                     if let Some(id) = a.strip_prefix("id ").and_then(|x| x.parse::<usize>().ok()) {
-                        if k.len() <= 100_000 {
+                        if k.len() <= 200_000 {
                             ids.push((id, k));
                         }
                     }
